@@ -33,6 +33,7 @@ pub struct Info {
     pub second_generation: usize,
     pub spend_probes: usize,
     pub nft_rebroadcast: usize,
+    pub nft_second_generation: usize,
     pub reorg_over_edge: usize,
 }
 
@@ -41,7 +42,7 @@ fn same_coordinates(e: &RefEntry, s: &Slip) -> bool {
 }
 
 /// Checks block `b` (height h > gp+1) against the ledger state just before it.
-fn check_edge_block(b: &Block, before: &RefLedger, gp: u64, info: &mut Info) -> Vec<(String, String)> {
+fn check_edge_block(b: &Block, before: &RefLedger, gp: u64, info: &mut Info, expiring_block: Option<&Block>) -> Vec<(String, String)> {
     let mut v = vec![];
     let expiring_id = b.id - gp - 1;
     let u: Vec<(&UKey, &RefEntry)> = before
@@ -69,8 +70,27 @@ fn check_edge_block(b: &Block, before: &RefLedger, gp: u64, info: &mut Info) -> 
             continue;
         }
         let (f, o) = if triple { (&t.from[1], &t.to[1]) } else { (&t.from[0], &t.to[0]) };
+        if !triple {
+            // a payload that sits between two Bound slips at the head of its transaction (the layout
+            // of a minted NFT and of a rebroadcast NFT group alike) travels with them: NFT transfers
+            // are not generated, so the group is intact whenever its payload is unspent
+            if let Some(xb) = expiring_block {
+                let orig = xb.transactions.iter().find(|x| x.to.first().map(|s| s.tx_ordinal) == Some(f.tx_ordinal) && x.to.first().map(|s| s.block_id) == Some(f.block_id));
+                if let Some(x) = orig {
+                    if f.slip_index == 1 && x.to.len() >= 3 && x.to[0].slip_type == SlipType::Bound && x.to[2].slip_type == SlipType::Bound && x.to[1].slip_type != SlipType::Bound {
+                        v.push((
+                            "C13|nft_group_split_at_rebroadcast".into(),
+                            format!("block id {} tx {}: output {}-{}-1 is the payload of an NFT group [Bound, {:?}, Bound] but is rebroadcast alone: the bound slips do not reappear", b.id, ti, f.block_id, f.tx_ordinal, x.to[1].slip_type),
+                        ));
+                    }
+                }
+            }
+        }
         if triple {
             info.nft_rebroadcast += 1;
+            if f.slip_type == SlipType::ATR {
+                info.nft_second_generation += 1;
+            }
             for (i, j) in [(0usize, 0usize), (2, 2)] {
                 let (bi, bo) = (&t.from[i], &t.to[j]);
                 if bo.slip_type != SlipType::Bound || bo.public_key != bi.public_key || bo.amount != bi.amount {
@@ -184,7 +204,8 @@ pub fn run_case(case: &Case) -> (Vec<(String, String)>, Info) {
                 if !old_set.contains(&pb.hash) {
                     newly += 1;
                     if pb.id > gp + 1 {
-                        v.extend(check_edge_block(pb, &ledger, gp, &mut info));
+                        let xb = new_path.get((pb.id - gp - 2) as usize).copied().filter(|x| x.id == pb.id - gp - 1);
+                        v.extend(check_edge_block(pb, &ledger, gp, &mut info, xb));
                     }
                 }
                 ledger.apply_block(pb);
@@ -266,6 +287,7 @@ fn eval(c: &mut Ctx, case: &Case, counting: bool) -> Vec<(String, String)> {
             (info.second_generation, "second_generation_rebroadcasts"),
             (info.spend_probes, "expired_spend_probes"),
             (info.nft_rebroadcast, "nft_group_rebroadcasts"),
+            (info.nft_second_generation, "nft_group_rebroadcast_again(second_generation)"),
             (info.reorg_over_edge, "reorgs_across_window_edge"),
         ] {
             if n > 0 {
